@@ -38,10 +38,12 @@ TRUSTED_BASE = [
     "translator harness/translate/c10.py (element classification table; AST check of slide()'s dispatch)",
     "correspondence harness harness/props/C10.py (monkeypatched slide / _flow_head_changed / eval_expression / "
     "_compute_event_matching_score recorders) + Lean driver Drive/C10.lean",
-    "the step budget B(program) = 8*(total elements + 10) slide calls / internal events per process_events call is empirical (T2 is not proved)",
+    "T2 is proved on the RoundMachine abstraction; that B bounds the REAL round rests on the per-run replay of recorded rounds (Drive/C10.lean `round`) "
+    "and on the translator's RProg (wait kinds, late-death analysis, catchAt) in harness/impl/c10_round.py; a 40*(elements+10) per-call backstop remains",
 ]
 ASSUMPTIONS = [
-    "whole-loop termination (T2 run_terminates) is decided by the step-budget oracle on the real interpreter, not by a theorem",
+    "whole-round termination (T2 run_terminates) is a theorem about the token abstraction RoundMachine, not about CoreVM; programs the verified "
+    "checker roundRanked rejects are outside the hypothesis (no termination verdict for them)",
     "ErrContain does not model the recursive child/action clean-up of _abort_flow/_finish_flow (C06) nor forked-head recursion",
     "the sliding graph over-approximates: dynamic `send $ref.X()` of non-action references is treated as sliding",
     "programs in which an activated flow completes a full pass on internally generated events only (e.g. `await` of a flow that "
@@ -486,7 +488,26 @@ def _vt_alarm(signum, frame):
 def run_impl(case):
     if case["kind"] == "lib":
         res, skipped = tr.library_flows()
-        return {"flows": {k: v["prog"] for k, v in res.items()}, "files": {k: v["file"] for k, v in res.items()}, "skipped": skipped,
+        lib_round = "n/a"
+        try:
+            rm.init()
+            flows, seen = [], set()
+            for f in tr.library_files():
+                try:
+                    fl = tr.parse_source(open(f, encoding="utf-8").read(), f)
+                except Exception:  # noqa
+                    continue
+                for x in fl:
+                    if x.name not in seen:
+                        seen.add(x.name)
+                        flows.append(x)
+            flows += tr.parse_source("flow main\n  match NeverEvent()\n")
+            st0 = tr.compile_flows(flows)
+            P, _idx, uns = rm.round_prog(st0.flow_configs, lambda fc: res[fc.id]["prog"])
+            lib_round = "unsupported-dynamic-start" if uns else ("ranked" if rm.Potential(P).ok else "outside-hypothesis")
+        except Exception as e:  # noqa
+            lib_round = "error:" + type(e).__name__
+        return {"lib_round": lib_round, "flows": {k: v["prog"] for k, v in res.items()}, "files": {k: v["file"] for k, v in res.items()}, "skipped": skipped,
                 "py_acyclic": {k: py_acyclic(v["prog"]) for k, v in res.items()},
                 "py_ranked": {k: py_ranked(v["prog"])[0] for k, v in res.items()}, "dynamic_send": sum(v["dynamic_send"] for v in res.values())}
     from nemoguardrails.colang.v2_x.runtime.flows import InternalEvents
@@ -913,7 +934,7 @@ def tags(case, obs):
         cyc = sorted(k for k, v in obs["py_acyclic"].items() if not v)
         unr = sorted(k for k, v in obs["py_ranked"].items() if not v and not obs["py_acyclic"][k])
         return ["kind:lib", f"lib-flows:{n}", f"lib-coarse-cyclic:{len(cyc)}", f"lib-hypothesis-not-established:{len(unr)}"] + \
-            [f"lib-unranked-flow:{k}" for k in unr[:8]] + [f"lib-skipped-files:{len(obs['skipped'])}"]
+            [f"lib-unranked-flow:{k}" for k in unr[:8]] + [f"lib-skipped-files:{len(obs['skipped'])}", "lib-as-one-program-round:" + obs.get("lib_round", "n/a")]
     meta = case["meta"]
     t = ["kind:prog", "mode:" + meta["mode"], "err:" + meta["kind"], "phase:" + meta["phase"], "waits-before:" + str(min(meta["waits_before"], 3))]
     if meta.get("nested"):
